@@ -142,6 +142,10 @@ func (fr *faultRun) execFaulty(op Op) bool {
 				return false
 			}
 		}
+		// let writes that an aborted transaction may have left in the writer's
+		// queue execute now (the unchanged code waits for them in Rollback/Close
+		// itself): their failures then count before this transaction begins
+		WaitWriterIdle(w.Disk)
 		fr.injectedAtBegin = w.Disk.Injected()
 		return w.Begin(txfile.TxOptions{EnableOverflowArea: op.A&1 != 0, WALLimit: uint(op.B), MetaAreaGrowPercentage: op.C})
 	}
